@@ -171,10 +171,17 @@ Record code := mkcode {
   fx_timer : bool;      (* Timer.start rewrites an unreadable .start_time; Timer.time ignores an unreadable .time *)
   fx_dill : bool;       (* save_search_internal writes search_internal.dill.tmp then os.replace *)
   fx_chk : bool;        (* Fitness.check_log_likelihood ignores an unreadable summary and compares likelihood with likelihood *)
-  fx_json : bool        (* DirectoryPaths.save_json writes <name>.json.tmp then os.replace *)
+  fx_json : bool;       (* DirectoryPaths.save_json writes <name>.json.tmp then os.replace *)
+  fx_drawer : bool;     (* proposed: Drawer._fit returns its search internal (needed with paths that do not persist it) *)
+  fx_zero : bool        (* proposed: BFGS/LBFGS with maxiter = 0 returns its starting point instead of raising *)
 }.
-Definition current : code := mkcode false false false false false false.
-Definition repaired : code := mkcode true true true true true true.
+Definition current : code := mkcode false false false false false false false false.
+(* /repo as it is now: the six file-system repairs are in, the two proposed ones are not *)
+Definition six_repairs : code := mkcode true true true true true true false false.
+Definition repaired_all : code := mkcode true true true true true true true true.
+(* FLIP HERE once both proposed repairs are applied: `Definition repaired : code := repaired_all.`
+   (with only one of them: the literal with that field true) *)
+Definition repaired : code := six_repairs.
 
 Inductive exc := BadZip | KeyErr | EOFErr | Unpickling | ValueErr | JSONDecode | FileNotFound | SearchExc | UnboundLocal | OtherExc.
 Record result := mkres { r_tag : nat; r_samples : option nat; r_internal : bool }.
@@ -258,11 +265,12 @@ Definition search_ops (cd : code) (c : cfg) (tag : nat) (s : fs)
   : list op * (exc + nat) * bool * bool :=
   let loop := dill_write cd (Full (Gen tag)) ++ update_ops cd c tag in
   match c_search c with
-  | Drawer => (dill_write cd (Full (Gen tag)), inr tag, true, false)
+  | Drawer => (dill_write cd (Full (Gen tag)), inr tag, true, fx_drawer cd)
   | LBFGS =>
       (* maxiter = 0: the while loop is never entered and `return search_internal` raises UnboundLocalError *)
       let fresh := match c_updates c with
-                   | O => ([], inl UnboundLocal, false, true)   (* the initial point is evaluated in a worker process *)
+                   | O => if fx_zero cd then ([], inr tag, true, true)
+                          else ([], inl UnboundLocal, false, true)   (* the initial point is evaluated in a worker process *)
                    | S _ => (repeat_ops (c_updates c) loop, inr tag, true, true)
                    end in
       match fd s Dill with
